@@ -8,6 +8,7 @@ IDS=${@:-$(ls seeded)}
 if [ -n "$(git -C /repo status --porcelain)" ]; then echo "/repo is dirty; refusing"; exit 2; fi
 for s in $IDS; do
   P=$(jq -r .property seeded/$s/meta.json)
+  if [ "$(jq -r '.superseded // empty' seeded/$s/meta.json)" != "" ]; then echo "$s $P superseded (no longer breaks the property on the repaired tree)"; continue; fi
   if ! git -C /repo apply --check /verif/seeded/$s/patch.diff 2>/dev/null; then
     if ! git -C /repo apply --3way /verif/seeded/$s/patch.diff >/dev/null 2>&1; then
       git -C /repo reset -q --hard HEAD; echo "$s $P no-apply"; continue
